@@ -14,6 +14,7 @@ FAIL_PATTERNS = [
     r"postcondition not satisfied",
     r"unable to prove (pre|post)-?condition of closure",
     r"precondition not satisfied",
+    r"precondition not met",       # native slice / Vec indexing: "precondition not met: index in bounds for this access"
     r"invariant not satisfied",
     r"assertion failed",
     r"possible arithmetic underflow/overflow",
